@@ -190,7 +190,7 @@ func TestVerifE3HalfOpen(t *testing.T) {
 		// earlier ones: one more normal round trip
 		probe := dial()
 		probe.Write([]byte("  V2"))
-		identify(probe)
+		probeOK := identify(probe) && cmdOK(probe, "PUB", append([]byte("PUB vfhoP\n\x00\x00\x00\x01"), 'x'))
 
 		local := func(c net.Conn) string { return c.LocalAddr().String() }
 		halfAddrs := map[string]string{}
@@ -257,6 +257,9 @@ func TestVerifE3HalfOpen(t *testing.T) {
 									// (a connection counts as a producer once it has published: clientV2.Type)
 									if published > 0 && !listed[local(pubc)] {
 										g.fail("halfopen-missing", "round %d: GET %s does not list the publishing client %s among the producers", round, url, local(pubc))
+									}
+									if probeOK && !listed[local(probe)] {
+										g.fail("halfopen-missing", "round %d: GET %s does not list the second publishing client %s among the producers", round, url, local(probe))
 									}
 									if channel != "channel=nosuch" && okSetup && !listed[local(subc)] {
 										g.fail("halfopen-missing", "round %d: GET %s does not list the subscribed client %s", round, url, local(subc))
